@@ -77,6 +77,9 @@ def jobs(tier):
                             dict(version=version, shape="flat2", P=16384, K=1, layout=layout, decoy="none", via=via)))
     for version in (1, 2, 3):
         out.append(("v%d.repaired-source-then-rebuild-again" % version, "job_repaired", dict(version=version, repaired=True)))
+    for version in (1, 2, 3):       # a directory torrent holding exactly one file
+        out.append(("v%d.dir1.flat.decoy-none" % version, "job", dict(version=version, shape="dir1", P=16384, K=2, layout="flat", decoy="none")))
+        out.append(("v%d.dir1.flat.decoy-before.cli" % version, "job", dict(version=version, shape="dir1", P=16384, K=2, layout="flat", decoy="before", via="cli")))
     out.extend(rw.matrix_rows(tier, "C13"))
     return out
 
